@@ -104,7 +104,7 @@ def run(prop: str, tier: str, seed: int) -> int:
     for sp in core_specs:
         for eng in ("sync", "async"):
             units.append(("core", {"specs": [sp], "engine": eng, "props": [prop], "seed": seed, "gvals": ("T", "F"), "mc": True,
-                                   "tlc_workers": 2, "walks": (0, 0), "max_states": 100 if q else 4000,
+                                   "tlc_workers": 2, "walks": (0, 0), "max_states": 100 if q else 600,
                                    "with_batch": sp.family == "R", "with_burst": sp.family == "A"}))
     # bursts on the async engine, trace-validated
     walk_specs = gen.family_R(seed + 2, 6 if q else 20)
